@@ -5,6 +5,8 @@ LEVEL = "proof"
 
 
 def run(ctx):
+    # leaf translator: theorems re-checked against the Gallina translation of the current Go source
+    generic.leaf_obligations(ctx, ['Word'])
     generic.standard(ctx, "Props_C18", "c18", "simd")
     ctx.coverage["explanation"] = (
         "Proved in Coq for all haystacks/needles: the pure-Go SWAR code paths (memchr, memchr2/3, pair incl. "
